@@ -1,6 +1,6 @@
-(* C18 — Collection aggregations are pointwise over the members (aggregation part; the element-wise
-   StairsArray operators, tables and matrices are list comprehensions over the Stairs methods of C01-C05, C19
-   and are not modelled). *)
+(* C18 — Collection aggregations are pointwise over the members; the element-wise StairsArray operators, the
+   sample / limit tables and the cov / corr matrices (Model/Arrays.v) are, entry by entry, the Stairs methods of
+   C01-C05, C12, C19 applied to the members. *)
 From Coq Require Import List QArith Qcanon.
 Import ListNotations.
 Require Import SC.Base.Val SC.Base.QcOrd SC.Model.Repr SC.Model.Sampling SC.Model.Stats SC.Model.Slicing.
@@ -36,3 +36,90 @@ Theorem aggregation_rejects_exactly_mixed_sides :
     exists w0 ws, filter has_steps ms = w0 :: ws /\ exists w, In w (w0 :: ws) /\ closed w <> closed w0.
 Proof. exact array_agg_mismatch_iff. Qed.
 Print Assumptions aggregation_rejects_exactly_mixed_sides.
+
+(* ---- element-wise operators, tables, matrices (Model/Arrays.v) *)
+Require Import SC.Model.Ops SC.Model.Arrays SC.Proofs.ArrayFacts.
+
+(* StairsArray <op> StairsArray: same length, and member i of the result is the Stairs operator applied to the i-th
+   members (the r-forms with the operands swapped: [member_op]); a different length is refused *)
+Theorem array_operator_is_the_stairs_operator_pair_by_pair :
+  forall (o : binop) (reflected : bool) (xs ys rs : list stairsQ),
+    arr_binop o reflected xs (AoArray ys) = Ok rs ->
+    length ys = length xs /\ length rs = length xs /\
+    forall i x y, nth_error xs i = Some x -> nth_error ys i = Some y ->
+      exists r, nth_error rs i = Some r /\ member_op o reflected x (OpS y) = Ok r.
+Proof. exact arr_binop_array. Qed.
+Print Assumptions array_operator_is_the_stairs_operator_pair_by_pair.
+
+Theorem array_operator_fails_only_where_a_member_operator_fails :
+  forall (o : binop) (reflected : bool) (xs ys : list stairsQ) e,
+    length ys = length xs -> arr_binop o reflected xs (AoArray ys) = Err e ->
+    exists i x y, nth_error xs i = Some x /\ nth_error ys i = Some y /\ member_op o reflected x (OpS y) = Err e.
+Proof. exact arr_binop_array_error. Qed.
+Print Assumptions array_operator_fails_only_where_a_member_operator_fails.
+
+Theorem array_operator_against_a_broadcast_scalar :
+  forall (o : binop) (reflected : bool) (xs : list stairsQ) (c : V) (rs : list stairsQ),
+    arr_binop o reflected xs (AoScalar c) = Ok rs ->
+    length rs = length xs /\
+    forall i x, nth_error xs i = Some x -> exists r, nth_error rs i = Some r /\ member_op o reflected x (OpC c) = Ok r.
+Proof. exact arr_binop_scalar. Qed.
+Print Assumptions array_operator_against_a_broadcast_scalar.
+
+Theorem array_operator_against_a_broadcast_stairs :
+  forall (o : binop) (reflected : bool) (xs : list stairsQ) (g : stairsQ) (rs : list stairsQ),
+    arr_binop o reflected xs (AoStairs g) = Ok rs ->
+    length rs = length xs /\
+    forall i x, nth_error xs i = Some x -> exists r, nth_error rs i = Some r /\ member_op o reflected x (OpS g) = Ok r.
+Proof. exact arr_binop_stairs. Qed.
+Print Assumptions array_operator_against_a_broadcast_stairs.
+
+(* sample / limit tables: row i, column j is member i sampled at point j *)
+Theorem sample_table_agrees_with_per_member_calls :
+  forall (xs : list stairsQ) (pts : list Qc) i j x p,
+    nth_error xs i = Some x -> nth_error pts j = Some p -> entry (arr_sample xs pts) i j = Some (sample x p).
+Proof. exact arr_sample_entry. Qed.
+Print Assumptions sample_table_agrees_with_per_member_calls.
+
+Theorem limit_table_agrees_with_per_member_calls :
+  forall (xs : list stairsQ) sd (pts : list Qc) i j x p,
+    nth_error xs i = Some x -> nth_error pts j = Some p -> entry (arr_limit xs sd pts) i j = Some (limit x sd p).
+Proof. exact arr_limit_entry. Qed.
+Print Assumptions limit_table_agrees_with_per_member_calls.
+
+(* cov / corr matrices: n x n, symmetric, entries the pairwise Stairs results *)
+Theorem matrices_are_square_and_symmetric :
+  forall diag_ones meth (ms : list stairsQ) M,
+    matrix diag_ones meth ms = Ok M ->
+    (length M = length ms /\ forall row, In row M -> length row = length ms) /\
+    forall i j, (i < length ms)%nat -> (j < length ms)%nat -> entry M i j = entry M j i.
+Proof.
+  intros d meth ms M H. split; [exact (matrix_shape d meth ms M H)|].
+  intros i j Hi Hj. exact (matrix_symmetric d meth ms M i j H Hi Hj).
+Qed.
+Print Assumptions matrices_are_square_and_symmetric.
+
+Theorem cov_matrix_entries_are_the_pairwise_cov :
+  forall (ms : list stairsQ) lo hi M i j mi mj (v : V),
+    (forall m, In m ms -> wf m /\ minimal m) ->
+    arr_cov ms lo hi = Ok M -> nth_error ms i = Some mi -> nth_error ms j = Some mj ->
+    cov mi mj lo hi 0%Qc ClipPre = Ok v -> entry M i j = Some v.
+Proof. exact cov_matrix_entries. Qed.
+Print Assumptions cov_matrix_entries_are_the_pairwise_cov.
+
+Theorem corr_matrix_entries_are_the_pairwise_corr :
+  forall (ms : list stairsQ) lo hi M i j mi mj (v : V),
+    (forall m, In m ms -> wf m /\ minimal m) -> i <> j ->
+    arr_corr ms lo hi = Ok M -> nth_error ms i = Some mi -> nth_error ms j = Some mj ->
+    corr_signed_square mi mj lo hi 0%Qc ClipPre = Ok v -> entry M i j = Some v.
+Proof. exact corr_matrix_off_diagonal. Qed.
+Print Assumptions corr_matrix_entries_are_the_pairwise_corr.
+
+(* the diagonal of corr: one, unless the member's correlation with itself is undefined (constant on the window) *)
+Theorem corr_matrix_diagonal_is_one_or_undefined :
+  forall (ms : list stairsQ) lo hi M i mi (v : V),
+    arr_corr ms lo hi = Ok M -> nth_error ms i = Some mi ->
+    corr_signed_square mi mi lo hi 0%Qc ClipPre = Ok v ->
+    entry M i i = Some (match v with Some _ => Some 1%Qc | None => None end).
+Proof. exact corr_matrix_diagonal. Qed.
+Print Assumptions corr_matrix_diagonal_is_one_or_undefined.
